@@ -1139,7 +1139,24 @@ func c15SameClass(a, b string) bool {
 }
 
 // c15TmuxCross: the same command line and actions under tmux; capture-pane must equal the VT interpreter's screen.
+// This is a self-check of the harness's screen interpreter on TWO separate fzf processes: a difference counts only
+// when it shows in three independent attempts (two processes can legitimately settle in different scroll states).
 func c15TmuxCross(c *Ctx, cs *c15Case, id int) {
+	for try := 0; try < 3; try++ {
+		mine, theirs, done := c15TmuxCrossOnce(c, cs, id*10+try)
+		if !done || strings.Join(mine, "\n") == strings.Join(theirs, "\n") {
+			if try > 0 && done {
+				c.Rep.Count("tmux_cross_check_agreed_on_retry")
+			}
+			return
+		}
+		if try == 2 {
+			c.Rep.Disagreement(Disagreement{Kind: "corr", Name: "corr:C15.vt_interpreter_vs_tmux", Input: cs, Impl: mine, Expect: theirs})
+		}
+	}
+}
+
+func c15TmuxCrossOnce(c *Ctx, cs *c15Case, id int) (mine, theirs []string, done bool) {
 	if _, err := exec.LookPath("tmux"); err != nil {
 		c.Rep.Count("tmux_missing")
 		return
@@ -1216,7 +1233,6 @@ func c15TmuxCross(c *Ctx, cs *c15Case, id int) {
 		}
 	}
 	deadline := time.Now().Add(c15Timeout)
-	var mine, theirs []string
 	for {
 		vt.Sync(s)
 		mine, _ = vt.Rows()
@@ -1235,9 +1251,7 @@ func c15TmuxCross(c *Ctx, cs *c15Case, id int) {
 	}
 	s.Close()
 	c.Rep.Count("tmux_cross_checked")
-	if strings.Join(mine, "\n") != strings.Join(theirs, "\n") {
-		c.Rep.Disagreement(Disagreement{Kind: "corr", Name: "corr:C15.vt_interpreter_vs_tmux", Input: cs, Impl: mine, Expect: theirs})
-	}
+	return mine, theirs, true
 }
 
 func shQuote(s string) string { return "'" + strings.ReplaceAll(s, "'", `'\''`) + "'" }
